@@ -3,4 +3,5 @@
 set -e
 cd "$(dirname "$0")"
 Z3I=/opt/veriftools/pyvenv/lib/python3.11/site-packages/z3
-clang++-14 -O2 -g -std=c++17 symx.cpp -o symx -I/usr/lib/llvm-14/include -D_GNU_SOURCE -D__STDC_CONSTANT_MACROS -D__STDC_FORMAT_MACROS -D__STDC_LIMIT_MACROS -I$Z3I/include -L$Z3I/lib -Wl,-rpath,$Z3I/lib -L/usr/lib/llvm-14/lib -lLLVM-14 -lz3 -lgmpxx -lgmp -w
+clang++-14 -O2 -g -std=c++17 symx.cpp -o symx.new -I/usr/lib/llvm-14/include -D_GNU_SOURCE -D__STDC_CONSTANT_MACROS -D__STDC_FORMAT_MACROS -D__STDC_LIMIT_MACROS -I$Z3I/include -L$Z3I/lib -Wl,-rpath,$Z3I/lib -L/usr/lib/llvm-14/lib -lLLVM-14 -lz3 -lgmpxx -lgmp -w
+mv -f symx.new symx
